@@ -4803,8 +4803,13 @@ class TLSConnection(TLSRecordLayer):
                                  settings.pskConfigs if
                                  i[0] in client_identities]
                     if psks_prfs:
-                        ciphers = CipherSuite.filter_for_prfs(ciphers,
-                                                              psks_prfs)
+                        psk_ciphers = CipherSuite.filter_for_prfs(ciphers,
+                                                                  psks_prfs)
+                        # but when no PSK fits a cipher offered by client,
+                        # fall back to the certificate (RFC 8446, 4.2.11)
+                        if not cert or any(i in client_hello.cipher_suites
+                                           for i in psk_ciphers):
+                            ciphers = psk_ciphers
                 for cipher in ciphers:
                     # select first mutually supported
                     if cipher in client_hello.cipher_suites:
